@@ -13,14 +13,24 @@ Section Facts.
     resolve_i64 scope model (Ref name) = resolve_i64 scope model (Lit v).
   Proof. intros name v H. unfold resolve_i64. rewrite H. reflexivity. Qed.
 
-  (* SIZE bounds: like the literal, for values that are sizes (0 <= v < 2^64) *)
+  (* SIZE bounds: like the literal, for values that are sizes (0 <= v) *)
   Lemma subst_usize : forall name v,
-    (0 <= v < 18446744073709551616)%Z ->
+    (0 <= v)%Z ->
     value_reference scope (lookup_fuel scope) model name = Found (LInteger v) ->
     resolve_usize scope model (Ref name) = resolve_usize scope model (Lit (Z.to_N v)).
   Proof.
-    intros name v Hv H. unfold resolve_usize. rewrite H. unfold U64_MOD.
-    rewrite Z.mod_small by exact Hv. reflexivity.
+    intros name v Hv H. unfold resolve_usize. rewrite H.
+    destruct (v <? 0)%Z eqn:E; [apply Z.ltb_lt in E; lia | reflexivity].
+  Qed.
+
+  (* a negative value is not a size: resolve error, never a wrapped bound (repair fb434d2) *)
+  Lemma negative_usize : forall name v,
+    (v < 0)%Z ->
+    value_reference scope (lookup_fuel scope) model name = Found (LInteger v) ->
+    resolve_usize scope model (Ref name) = RErr (FailedToParseLiteral (name_prefix ++ name)).
+  Proof.
+    intros name v Hv H. unfold resolve_usize. rewrite H.
+    destruct (v <? 0)%Z eqn:E; [reflexivity | apply Z.ltb_ge in E; lia].
   Qed.
 
   (* DEFAULT values whose component type is not a reference to an ENUMERATED with an item of that name *)
